@@ -1,0 +1,6 @@
+//go:build !verif
+
+package resource
+
+// verifYield is a no-op outside builds with the verif tag.
+func verifYield(string) {}
